@@ -1,6 +1,7 @@
 package harness
 
 import (
+	"crypto/tls"
 	"errors"
 	"fmt"
 	"io"
@@ -62,6 +63,21 @@ type Net struct {
 	DialHook func(addr string) error
 	// OnPipe is called for every new connection (to arm cuts).
 	OnPipe func(p *Pipe)
+	// TLS: the configuration the socket constructors are expected to receive (nil: none), and what they got.
+	// (TLS itself is not simulated: this only observes that the configuration reaches the socket layer.)
+	TLSWant                         *tls.Config
+	TLSCalls, TLSMissing, TLSExtra int
+}
+
+// noteTLS is called by every socket constructor the library invokes for this network.
+func (n *Net) noteTLS(c *tls.Config) {
+	n.TLSCalls++
+	if n.TLSWant != nil && c != n.TLSWant {
+		n.TLSMissing++
+	}
+	if n.TLSWant == nil && c != nil {
+		n.TLSExtra++
+	}
 }
 
 func NewNet(cfg NetConfig) *Net {
